@@ -475,7 +475,7 @@ def space(tier):
         p["faults"][0].update({"api": "send", "r": 3, "net": [{"drop": True}, {}, {}]})
         p.pop("lifetime", None)
         return p
-    sp.add("rollover_retry", 8 if tier == "quick" else 64, rollover, wall_limit=300)
+    sp.add("rollover_retry", 8 if tier == "quick" else 64, rollover, wall_limit=600)
     sp.add("fault_free", 200 if tier == "quick" else 5000,
            lambda j, rng: dict(gen_plan(j, rng), faults=[]))
 
